@@ -213,9 +213,63 @@ package mq
 //@   requires will != nil
 
 //@ func (*Connect).dump
-//@   inline
 //@   requires w != nil
 //@   requires specConnectOK(p.flags, p.will)
+//@   assigns $writes
+
+// dump writes to the caller's writer only: nothing that existed before the call is modified
+//@ func (*ConnAck).dump
+//@   requires w != nil
+//@   assigns $writes
+
+//@ func (*Publish).dump
+//@   requires w != nil
+//@   assigns $writes
+
+//@ func (*PubAck).dump
+//@   requires w != nil
+//@   assigns $writes
+
+//@ func (*PubRec).dump
+//@   requires w != nil
+//@   assigns $writes
+
+//@ func (*PubRel).dump
+//@   requires w != nil
+//@   assigns $writes
+
+//@ func (*PubComp).dump
+//@   requires w != nil
+//@   assigns $writes
+
+//@ func (*Subscribe).dump
+//@   requires w != nil
+//@   assigns $writes
+
+//@ func (*SubAck).dump
+//@   requires w != nil
+//@   assigns $writes
+
+//@ func (*Unsubscribe).dump
+//@   requires w != nil
+//@   assigns $writes
+
+//@ func (*UnsubAck).dump
+//@   requires w != nil
+//@   assigns $writes
+
+//@ func (*Disconnect).dump
+//@   requires w != nil
+//@   assigns $writes
+
+//@ func (*Auth).dump
+//@   requires w != nil
+//@   assigns $writes
+
+//@ func (*UserProperties).dump
+//@   requires w != nil
+//@   assigns $writes
+
 
 
 //@ func (*Connect).WriteTo
